@@ -8,7 +8,7 @@
    from the application's call on one side to the handler / subscriber / awaitable on the other. *)
 From Coq Require Import NArith List Bool Init.Byte.
 From RSV Require Import gen.GenConst lib.Bytes model.Frame model.Parser model.Fragmenter model.SendQueue model.Pipeline
-     model.Endpoint model.Network proofs.FragmenterProofs proofs.SendQueueProofs proofs.PipelineProofs proofs.NetworkProofs proofs.NetworkRequests.
+     model.Endpoint model.Network proofs.FragmenterProofs proofs.SendQueueProofs proofs.PipelineProofs proofs.NetworkProofs proofs.NetworkRequests proofs.NetworkExact.
 Import ListNotations.
 Open Scope N_scope.
 
@@ -157,6 +157,69 @@ Theorem C01_network_request_example :
   got_req tr SB 1 = [([x01], [x02])].
 Proof. exact request_example. Qed.
 Print Assumptions C01_network_request_example.
+
+(* EXACTLY ONCE for every payload of a stream, over whole histories.  The vocabulary first (definitions in
+   proofs/NetworkExact.v, restated here so that the theorem can be read on its own):
+   - s "hears" a frame: a request finds its id free at s; an element / response finds the object registered for its
+     stream still expecting one (a pending awaitable, a subscribed stream requester, a channel side whose receive
+     direction is open);
+   - s is "listening" on stream k over a history: each time a frame of k carrying a payload with content is dispatched
+     at s, s hears it;
+   - "wanted" keeps the payloads with content (an empty payload is no element on the wire: model/Network.v on_wire). *)
+Theorem C01_hears_def : forall e f, hears e f <->
+  match f with
+  | FRequestResponse _ _ _ _ _ | FRequestFnf _ _ _ _ _ | FRequestStream _ _ _ _ _ _ | FRequestChannel _ _ _ _ _ _ _ =>
+      tget (table e) (fsid f) = None
+  | FPayload _ _ _ _ _ _ _ =>
+      exists oid ob, tget (table e) (fsid f) = Some oid /\ nth_error (objs e) oid = Some ob /\ receptive ob = true
+  | _ => False
+  end.
+Proof. intros e f. unfold hears. reflexivity. Qed.
+Print Assumptions C01_hears_def.
+
+Theorem C01_listening_def : forall n l r s k, listening n (l :: r) s k <->
+  match l with
+  | NDeliver s' k' _ _ =>
+      if side_eqb s' s && (k' =? k) then
+        match pop (inbox n s) k with
+        | Some (f, _) => match carried f with
+                         | Some p => nonempty p = true -> hears (ep_of n s) f
+                         | None => True
+                         end
+        | None => True
+        end
+      else True
+  | NLocal _ _ => True
+  end /\ listening (fst (net_step n l)) r s k.
+Proof. intros n l r s k. cbn [listening]. unfold listens_at. reflexivity. Qed.
+Print Assumptions C01_listening_def.
+
+(* For EVERY history of the two endpoints from connection start, each side s and each stream k other than 0: if s was
+   listening on k throughout and nothing of stream k is still under way to s, the payloads with content the application
+   at s was given from k — handler arguments, subscriber elements, awaitable results — are exactly the payloads with
+   content its peer queued on k: none lost, none twice, none altered, in the order queued.  Streams may overtake each
+   other, the other side may cancel, fail, close or open further streams at any moment. *)
+Theorem C01_network_exactly_once : forall ls s k, k <> 0 -> listening net_init ls s k ->
+  let r := net_run net_init ls in
+  on_stream k (inbox (fst r) s) = [] ->
+  filter nonempty (got (snd r) s k) = filter nonempty (pmap carried (on_stream k (nwire (snd r) (other s)))).
+Proof. exact network_exactly_once. Qed.
+Print Assumptions C01_network_exactly_once.
+
+(* non-vacuity: the history below (a request-response one way, a request-stream with two elements the other way,
+   deliveries interleaved) is listening on every stream it uses and drains both links *)
+Theorem C01_network_exactly_once_example :
+  let ls := [NLocal SA (LReqResponse [x01] [x02]); NLocal SB (LReqStream [x03] [x04]);
+             NLocal SB (LSubscribe 0%nat true [x03] [x04]);
+             NDeliver SB 1 OFuture true; NDeliver SA 2 OPublisher true;
+             NLocal SA (LPubNext 1%nat [x05] [x06] false); NLocal SB (LAppResolve 1%nat (ARResult [x07] [x08]));
+             NLocal SB (LFutCb 1%nat (ARResult [x07] [x08])); NLocal SA (LPubNext 1%nat [] [x09] true);
+             NDeliver SB 2 ONone true; NDeliver SA 1 ONone true; NDeliver SB 2 ONone true] in
+  (listening net_init ls SB 1 /\ listening net_init ls SA 1 /\ listening net_init ls SB 2 /\ listening net_init ls SA 2) /\
+  inbox (fst (net_run net_init ls)) SA = [] /\ inbox (fst (net_run net_init ls)) SB = [] /\
+  filter nonempty (got (snd (net_run net_init ls)) SB 2) = [([x05], [x06]); ([], [x09])].
+Proof. exact exactly_once_example. Qed.
+Print Assumptions C01_network_exactly_once_example.
 
 (* non-vacuity: request-response from A, a stream from B with two elements overtaking the response on the link *)
 Theorem C01_network_example :
